@@ -36,7 +36,9 @@ func (c c15Case) String() string {
 	return fmt.Sprintf("%s pre=%s R=%d", o, c.Pre, c.R)
 }
 
-var c15Paths = []string{"EO", "EN", "CC", "RO", "RN", "PL"}
+// RNx: the raw path with every duration spelled in the other unit (EX <-> PX, EXAT <-> PXAT,
+// DM.EXPIRE <-> DM.PEXPIRE, DM.LOCKLEASE <-> DM.PLOCKLEASE)
+var c15Paths = []string{"EO", "EN", "CC", "RO", "RN", "PL", "RNx"}
 
 type c15Obs struct {
 	Path   string
@@ -258,7 +260,7 @@ func c15MultiDel(cl *simcluster.Cluster, cs c15Case, path string) c15Obs {
 	}
 	owner0 := cl.Owner(view, "d", k0)
 	entryMember := owner0
-	if path == "EN" || path == "RN" {
+	if path == "EN" || path == "RN" || path == "RNx" {
 		for _, m := range cl.Live() {
 			if m != owner0 {
 				entryMember = m
